@@ -34,7 +34,8 @@ _pool = None
 
 
 class Pool:
-    def __init__(self, intmode=None, np_sites=True):
+    def __init__(self, intmode=None, np_sites=True, how="int"):
+        self.how = how                    # how an argument is respelled in these runs: int | strided | readonly | fortran
         self.phase = 0
         self.np_sites = np_sites          # False: only the adapters' argument copies and value objects are pooled
         self.intmode = intmode            # None | "all" | int seed (per call site coin)
@@ -45,18 +46,40 @@ class Pool:
                       "results_overwritten": 0, "built_as_integer_arrays": 0}
 
     def as_int(self, site, a):
-        """integer-dtype spelling of a float64 array whose values are all integers (what `np.array([[0, 0, 0], [1, 0, 0]])`
-        gives a caller who writes whole numbers): the mathematical input is the same"""
-        if self.intmode is None or a.dtype != _np.float64 or a.size == 0:
-            return a
-        if not (_np.all(_np.isfinite(a)) and _np.all(a == _np.round(a)) and _np.all(_np.abs(a) < 2.0 ** 52)):
+        """another spelling of the same argument, as a caller might hand it over (the mathematical input is unchanged):
+        int      integer dtype for a float64 array whose values are all whole numbers (what
+                 `np.array([[0, 0, 0], [1, 0, 0]])` gives a caller who writes whole numbers)
+        strided  a non-contiguous view (every other row / element of a larger buffer)
+        readonly a write-protected array (a library function never writes into its arguments)
+        fortran  column-major memory order"""
+        if self.intmode is None or a.size == 0 or a.dtype == object:
             return a
         if self.intmode != "all":
             import zlib
             if zlib.crc32(repr((self.intmode,) + tuple(site[1:])).encode()) % 3 == 0:
                 return a
-        self.stats["built_as_integer_arrays"] += 1
-        return a.astype(_np.int64)
+        if self.how == "int":
+            if a.dtype != _np.float64:
+                return a
+            if not (_np.all(_np.isfinite(a)) and _np.all(a == _np.round(a)) and _np.all(_np.abs(a) < 2.0 ** 52)):
+                return a
+            self.stats["built_as_integer_arrays"] += 1
+            return a.astype(_np.int64)
+        self.stats["respelled_" + self.how] = self.stats.get("respelled_" + self.how, 0) + 1
+        if self.how == "strided":
+            if a.ndim == 0:
+                return a
+            big = _np.zeros((2 * a.shape[0],) + a.shape[1:], dtype=a.dtype)
+            big[1::2] = 77 if a.dtype != bool else True
+            big[::2] = a
+            return big[::2]
+        if self.how == "readonly":
+            b = a.copy()
+            b.flags.writeable = False
+            return b
+        if self.how == "fortran":
+            return _np.asfortranarray(a) if a.ndim >= 2 else a
+        return a
 
     def note_result(self, r, depth=0):
         if isinstance(r, _np.ndarray):
@@ -249,8 +272,9 @@ def adapter_write(exc):
 class scope:
     """with scope(modules) as pool:  pooled construction inside the adapter modules for the duration"""
 
-    def __init__(self, modules, classes=VALUE_CLASSES, intmode=None, np_sites=True):
+    def __init__(self, modules, classes=VALUE_CLASSES, intmode=None, np_sites=True, how="int"):
         self.np_sites = np_sites
+        self.how = how
         self.modules = [m for m in modules if m is not None]
         self.classes = tuple(classes) if intmode is None else VALUE_CLASSES
         self.intmode = intmode
@@ -258,7 +282,7 @@ class scope:
 
     def __enter__(self):
         global _pool
-        _pool = Pool(self.intmode, self.np_sites)
+        _pool = Pool(self.intmode, self.np_sites, self.how)
         proxy = _NpProxy()
         for m in self.modules:
             d = m.__dict__
@@ -301,14 +325,16 @@ class scope:
         return False
 
 
-def shcopy(x, keep_dtype=False):
+def shcopy(x, keep_dtype=False, keep_layout=False):
     """the adapters' defensive copy of an argument (`x.copy()`): private outside a pair; inside a pair it is the caller's
     buffer for that call site, pooled like the arrays the adapter builds; in an integer-dtype run it is respelled as an
     int64 array when all its values are whole numbers (unless `keep_dtype`: arguments documented as float arrays)"""
     r = x.copy()
     if _pool is None or not isinstance(r, _np.ndarray):
         return r
-    if keep_dtype and _pool.intmode is not None:
+    if keep_dtype and _pool.intmode is not None and _pool.how == "int":
         return r
+    if keep_layout and _pool.intmode is not None and _pool.how != "int":
+        return r            # results that depend on the summation order (a degenerate eigenspace) are not comparable
     f = sys._getframe(1)
     return _pool.arr((f.f_code.co_filename, f.f_lineno, f.f_lasti, "cp"), r)
